@@ -314,13 +314,17 @@ impl<'a> Iterator for TokenIterator<'a> {
                             break;
                         }
                     }
-                    let v = u32::from_str_radix(&*buf, 16).unwrap();
-                    if let Some(c) = ::std::char::from_u32(v) {
-                        let mut buf = String::new();
-                        buf.push(c);
-                        Token::Ident(buf)
-                    } else {
-                        Token::Error(format!("Invalid unicode scalar: {:x}", v))
+                    match u32::from_str_radix(&*buf, 16) {
+                        Ok(v) => {
+                            if let Some(c) = ::std::char::from_u32(v) {
+                                let mut buf = String::new();
+                                buf.push(c);
+                                Token::Ident(buf)
+                            } else {
+                                Token::Error(format!("Invalid unicode scalar: {:x}", v))
+                            }
+                        }
+                        Err(_) => Token::Error(format!("Invalid unicode escape: \\u{}", buf)),
                     }
                 }
                 _ => Token::Error("Unexpected \\".to_string()),
